@@ -463,6 +463,11 @@ type FunctionLiteral struct {
 }
 
 func (fl FunctionLiteral) lambdaPrint(out *PrintState) *PrintState {
+	// A lambda used as operand of an operator binding tighter than => needs parentheses.
+	outerParen := LAMBDA < out.ExpressionPrecedence
+	if outerParen {
+		out.Print("(")
+	}
 	needParen := len(fl.Parameters) != 1
 	if needParen {
 		out.Print("(")
@@ -477,6 +482,9 @@ func (fl FunctionLiteral) lambdaPrint(out *PrintState) *PrintState {
 		out.Print(" => ")
 	}
 	fl.Body.PrettyPrint(out)
+	if outerParen {
+		out.Print(")")
+	}
 	return out
 }
 
